@@ -379,3 +379,6 @@ def r9(run, db):
 Q = ["dflt", "rc"]
 TH = ["dflt", "rc", "atr", "astd", "mon"]
 RULES = [{"id": "C04.R%d" % i, "fn": f, "quick": Q, "thorough": TH} for i, f in enumerate([r1, r2, r3, r4, r5, r6, r7, r8, r9], 1)]
+from .positive import control
+RULES.append({"id": "C04.P", "fn": control('k14'), "quick": ["pos"], "thorough": ["pos"]})
+DOC["C04.P"] = 'positive control: planted tokio::spawn(actor.handle(..)) must be reported by the future-flow analysis as uncontained'
